@@ -31,6 +31,12 @@ type c01bCase struct {
 
 func evalC01b(c c01bCase) (f *Failure, nontrivial bool) {
 	class := c.Transport
+	for _, k := range c.Ops {
+		if k%6 == 5 {
+			class = c.Transport + ",side-namespace-bounce" // a side namespace left and joined again 2 ms later (or at once) while the stream runs
+			break
+		}
+	}
 	rejoinAtOnce := false
 	for _, k := range c.Ops {
 		rejoinAtOnce = rejoinAtOnce || (k%6 == 5 && c.RejoinAtOnce)
